@@ -24,15 +24,29 @@ def install(outdir, repo):
             seen.add((fn[len(root):], line))
         return mon.DISABLE
 
+    started, returned = set(), set()
+
+    def on_start(code, offset):
+        if code.co_filename.startswith(root):
+            started.add((code.co_filename[len(root):], code.co_firstlineno, code.co_qualname))
+        return mon.DISABLE
+
+    def on_return(code, offset, retval):
+        if code.co_filename.startswith(root):
+            returned.add((code.co_filename[len(root):], code.co_firstlineno, code.co_qualname))
+        return mon.DISABLE
+
     mon.use_tool_id(TOOL, 'verif-cover')
     mon.register_callback(TOOL, mon.events.LINE, on_line)
-    mon.set_events(TOOL, mon.events.LINE)
+    mon.register_callback(TOOL, mon.events.PY_START, on_start)
+    mon.register_callback(TOOL, mon.events.PY_RETURN, on_return)
+    mon.set_events(TOOL, mon.events.LINE | mon.events.PY_START | mon.events.PY_RETURN)
 
     def dump():
         try:
             os.makedirs(outdir, exist_ok=True)
             with open(os.path.join(outdir, '%d.json' % os.getpid()), 'w') as fh:
-                json.dump(sorted(seen), fh)
+                json.dump(dict(lines=sorted(seen), started=sorted(started), returned=sorted(returned)), fh)
         except Exception:
             pass
 
